@@ -3995,3 +3995,52 @@ B("SW-C01-readable-is-empty-inverted", "C01", "C01:R-C01.9:readable::Readable::i
   "            .transpose()?\n            .is_none())", "            .transpose()?\n            .is_some())")
 B("SW-C01-readable-len-counts-two", "C01", "C01:R-C01.9:readable::Readable::len", "src/readable.rs",
   "            let _ = guard.key()?;\n            count += 1;", "            let _ = guard.key()?;\n            count += 2;")
+
+# ---- repair 42 reverted; round-6 rules
+B("F42-C17-drop-ignores-a-full-queue", "C17", "C17:R-C17.4:<db::DatabaseInner as std::ops::Drop>::drop:wait-loop-makes-room", DB,
+  """            if self
+                .worker_pool
+                .sender
+                .try_send(WorkerMessage::Close)
+                .is_err()
+            {
+                // NOTE: The queue is full. A worker may be blocked sending into it itself
+                // (a re-queued compaction, a flush wake-up) and would never get to see a close message:
+                // make room, everything in the queue is obsolete by now
+                let _ = self.worker_pool.rx.drain().count();
+            }
+""", """            let _ = self.worker_pool.sender.try_send(WorkerMessage::Close);
+""")
+B2("C17-keyspace-lock-guard-declared-first", "C17", "C17:R-C17.13:keyspace::KeyspaceInner", [
+    (KS, """    pub(crate) is_poisoned: PoisonSignal,
+
+    /// LSM-tree wrapper""", """    pub(crate) is_poisoned: PoisonSignal,
+
+    #[expect(unused)]
+    lock_file: LockedFileGuard,
+
+    /// LSM-tree wrapper"""),
+    (KS, """    pub(crate) worker_messager: flume::WeakSender<WorkerMessage>,
+
+    #[expect(unused)]
+    lock_file: LockedFileGuard,
+}""", """    pub(crate) worker_messager: flume::WeakSender<WorkerMessage>,
+}"""),
+])
+B("C08-commit-skips-tombstones-of-keys-absent-at-the-snapshot", "C08", "C08:R-C08.4:tx::write_tx::BaseTransaction::commit:commit-does-not-consult-the-tree", _TXW,
+  """                batch.data.push(Item::new(
+                    keyspace.clone(),""", """                if item.is_tombstone() && !keyspace.tree.contains_key(&item.key.user_key, self.nonce.instant)? {
+                    continue;
+                }
+
+                batch.data.push(Item::new(
+                    keyspace.clone(),""")
+B("C06-batch-applied-without-the-keyspaces-lock", "C06", "C06:R-C06.11:batch::WriteBatch::commit", BATCH,
+  """        let keyspaces = self
+            .db
+            .supervisor
+            .keyspaces
+            .read()
+            .expect("lock is poisoned");
+""", """        let keyspaces = ();
+""")
